@@ -7,6 +7,7 @@ import (
 	"go/ast"
 	"go/token"
 	"go/types"
+	"sort"
 	"strings"
 )
 
@@ -45,8 +46,9 @@ func (c *Ctx) stringDecoderClass(fn *types.Func) (class, why string) {
 		var pre []Step
 		var post []Step // assignments to locals after the decoder ran (a named result cleared on the failure path)
 		for _, st := range p.Effects() {
-			if dec == nil && (st.Kind == "store" || (st.Kind == "call" && st.Blt != nil && st.Blt.Name == "copy")) {
-				pre = append(pre, st)
+			isDec := st.Kind == "call" && st.Call != nil && st.Call.Fun != nil && (st.Call.Fun.FullName() == "encoding/json.Unmarshal" || st.Call.Fun.FullName() == "strconv.Unquote")
+			if dec == nil && !isDec {
+				pre = append(pre, st) // the quoted literal being assembled in a local buffer or builder: executed per probe below
 				continue
 			}
 			if dec != nil && st.Kind == "store" {
@@ -172,6 +174,55 @@ type decodeSite struct {
 
 func (c *Ctx) decodeSites() []decodeSite {
 	var out []decodeSite
+	seen := map[token.Pos]bool{}
+	// (a) on the machines' symbolic iteration paths: calls of a token consumer returning (string, error) whose first argument is the
+	// content of one of the machine's token buffers (however many temporaries it passes through)
+	for _, m := range c.machines().each() {
+		if m.fn == nil || m.why != "" {
+			continue
+		}
+		sm := m.sx()
+		if sm.why != "" {
+			continue
+		}
+		roles := m.builderRoles()
+		var sites []*ast.CallExpr
+		for _, ip := range sm.iter {
+			for _, st := range ip.Steps {
+				if st.Kind != "call" || st.Call == nil || st.Call.Fun == nil || !sm.decoder[st.Call.Fun] || len(st.Call.Args) == 0 || st.Call.Site == nil {
+					continue
+				}
+				sig := st.Call.Fun.Type().(*types.Signature)
+				if b, ok := sig.Results().At(0).Type().(*types.Basic); !ok || b.Kind() != types.String {
+					continue
+				}
+				if m.builderStringT(st.Call.Args[0], roles) == "" {
+					continue
+				}
+				if !seen[st.Call.Site.Pos()] {
+					seen[st.Call.Site.Pos()] = true
+					sites = append(sites, st.Call.Site)
+				}
+			}
+		}
+		sort.Slice(sites, func(i, j int) bool { return sites[i].Pos() < sites[j].Pos() })
+		for _, site := range sites {
+			ds := decodeSite{fn: m.name, call: site, cal: c.callee(site)}
+			ast.Inspect(m.fn.Body, func(n ast.Node) bool {
+				if as, ok := n.(*ast.AssignStmt); ok && len(as.Rhs) == 1 && len(as.Lhs) == 2 && unparen(as.Rhs[0]) == ast.Expr(site) {
+					ds.stmt, ds.errV = as, c.obj(as.Lhs[1])
+				}
+				return true
+			})
+			if ds.cal != nil && ds.stmt != nil {
+				out = append(out, ds)
+			}
+		}
+	}
+	if len(out) > 0 {
+		return out
+	}
+	// (b) syntactically (machines the path executor does not follow)
 	for _, name := range []string{"parseList", "parseObject"} {
 		fd := c.Decl(name)
 		if fd == nil {
